@@ -30,6 +30,7 @@ type caSpec struct {
 	bc     int   // 0 no basicConstraints, 1 CA:TRUE, 2 CA:FALSE
 	ekus   []string
 	noSKI  bool
+	pl     int // n > 0: basicConstraints carries pathLenConstraint n-1 (the statement does not make path length a condition of admission)
 }
 
 var ekuOID = map[string][]int{"server": pki.OIDEKUServerAuth, "client": pki.OIDEKUClientAuth, "ct": pki.OIDEKUCT, "any": pki.OIDEKUAny}
@@ -53,10 +54,12 @@ func wrap(c *pki.Cert, id string, ekus []string) *node {
 func buildCA(id string, s caSpec, signWith *pki.Key) *node {
 	k := pki.LoadKey(s.key)
 	var exts []pki.Ext
-	switch s.bc {
-	case 1:
+	switch {
+	case s.bc == 1 && s.pl > 0:
+		exts = append(exts, pki.ExtBasicConstraintsPathLen(s.pl-1))
+	case s.bc == 1:
 		exts = append(exts, pki.ExtBasicConstraints(true, true))
-	case 2:
+	case s.bc == 2:
 		exts = append(exts, pki.ExtBasicConstraints(false, true))
 	}
 	exts = append(exts, pki.ExtKeyUsage(0x06, 1))
@@ -258,6 +261,10 @@ func newWorld(thorough bool) *world {
 	R1x2 := ca("R1x2", "R1", "p256-0", R2) // R1 cross-certified by R2
 	R1re := root("R1re", "R1", "p256-0", false) // R1 re-issued (same name and key), not in the pool
 	K := ca("K", "K", "p256-5", R3new)
+	// a CA whose pathLenConstraint (0) is exceeded by what hangs below it: another CA, and a precertificate signing certificate
+	Q1 := buildCA("Q1", caSpec{cn: "Q1", key: "p256-6", parent: R1, bc: 1, pl: 1}, nil)
+	Q2 := ca("Q2", "Q2", "p256-7", Q1)
+	PQ := ca("PQ", "PQ", "p256-2", Q1, "ct")
 
 	type lb struct {
 		name   string
@@ -276,6 +283,8 @@ func newWorld(thorough bool) *world {
 		{"cross-root", "p256-3", I1, []*node{I1, R1x2, R2}},
 		{"reissued-root", "p256-3", I1, []*node{I1, R1re, R1}},
 		{"renamed-root-aki", "p256-3", K, []*node{K, R3new}},
+		{"pathlen-exceeded", "p256-3", Q2, []*node{Q2, Q1, R1}},
+		{"pathlen-exceeded-by-preissuer", "p256-3", PQ, []*node{PQ, Q1, R1}},
 		// leaves that carry the one public key the signature check exempts from "the issuer must be a CA"
 		{"entrust-key-direct", "entrust2048-public", R1, []*node{R1}},
 		{"entrust-key-one-int", "entrust2048-public", I1, []*node{I1, R1}},
